@@ -17,6 +17,8 @@ func main() {
 		os.Exit(2)
 	}
 	switch os.Args[1] {
+	case "c24":
+		c24(os.Args[2:])
 	case "c25":
 		c25(os.Args[2:])
 	case "c26":
